@@ -88,9 +88,12 @@ class Series:
         out = factor * @acc ; returns (acc name, factor, constant remainder)"""
         v = self.outputs[arr]
         accs = [a for a in v.atoms() if a.startswith('@')]
-        if len(accs) != 1:
+        # the accumulator that enters linearly on its own (out = factor*@acc + terms in other accumulators)
+        lin = [a for a in accs if v.coeff_of(a).t and not (v.coeff_of(a).atoms() & set(accs))
+               and all(dict(m).get(a, 0) in (0, 1) for m in v.t)]
+        if len(lin) != 1:
             return None, None, v
-        acc = accs[0]
+        acc = lin[0]
         factor = v.coeff_of(acc)
         rem = v - factor * S(acc)
         return acc[1:], factor, rem
